@@ -335,6 +335,8 @@ fn main() {
         "keygen" => kg::run(&a),
         "ipa" => ipa::run(&a),
         "params" => c17::run(&a),
+        "paramsio" => c17::run_io(&a),
+        "paramsio_real" => c17::run_io_real(&a),
         "fft" | "domain" | "kate" | "interp" | "lrange" => c12::run(&sc, &a),
         _ => panic!("unknown scenario {sc}"),
     };
